@@ -246,3 +246,62 @@ def nonascii_last_argument(src):
     try: compile(out, "<nonascii>", "exec")
     except SyntaxError: return None
     return out
+
+def second_use(src):
+    """append one more (harmless) use of every name the file's imports bind: a codemod that drops or renames an import must keep these resolvable"""
+    try: tree = ast.parse(src)
+    except SyntaxError: return None
+    names = []
+    for n in tree.body:
+        if isinstance(n, ast.Import):
+            for a in n.names: names.append(a.asname or a.name.split(".")[0])
+        elif isinstance(n, ast.ImportFrom) and n.module != "__future__":
+            for a in n.names:
+                if a.name != "*": names.append(a.asname or a.name)
+    names = list(dict.fromkeys(names))
+    if not names: return None
+    tail = "".join(f"vf_keep_{i} = {nm}\n" for i, nm in enumerate(names))
+    return src + ("" if src.endswith("\n") else "\n") + tail
+
+def twice(src):
+    """the seed body twice in one file (two sites of the same trigger)"""
+    head, body = split_head(src)
+    if not body.strip(): return None
+    if not body.endswith("\n"): body += "\n"
+    out = head + body + "\nVF_BETWEEN_SITES = 0\n" + body
+    try: compile(out, "<twice>", "exec")
+    except SyntaxError: return None
+    return out
+
+class _ReverseKeywords(cst.CSTTransformer):
+    """f(a, k1=1, k2=2) -> f(a, k2=2, k1=1): the keyword arguments of every call in reverse order (positional and */** arguments stay)"""
+    def leave_Call(self, o, u):
+        kws = [a for a in u.args if a.keyword is not None and a.star == ""]
+        if len(kws) < 2: return u
+        rev = list(reversed(kws)); it = iter(rev); out = []
+        for a in u.args:
+            if a.keyword is not None and a.star == "":
+                b = next(it); out.append(b.with_changes(comma=a.comma))      # keep the separators where they were
+            else: out.append(a)
+        return u.with_changes(args=out)
+def keywords_reversed(src): return _try(src, _ReverseKeywords())
+CALL_LAYOUTS["keywords-reversed"] = keywords_reversed
+
+def added_imports(before: str, after: str):
+    """import statements present in `after` but not in `before` (module level, as source lines) - used as a GENERATOR hint only"""
+    def imps(s):
+        try: t = ast.parse(s)
+        except SyntaxError: return set()
+        return {ast.unparse(n) for n in t.body if isinstance(n, (ast.Import, ast.ImportFrom)) and not (isinstance(n, ast.ImportFrom) and n.module == "__future__")}
+    return sorted(imps(after) - imps(before))
+
+def local_decoy(src, imports):
+    """another function that imports, LOCALLY, exactly what the codemod is known to add at module level: a codemod that believes the module
+    already has the import must not skip adding it"""
+    if not imports: return None
+    decoy = "def vf_decoy():\n" + "".join(f"    {i}\n" for i in imports) + "    return 0\n\n"
+    head, body = split_head(src)
+    out = head + decoy + body
+    try: compile(out, "<decoy>", "exec")
+    except SyntaxError: return None
+    return out
